@@ -123,6 +123,8 @@ def build_tasks(tier, seed):
     tasks.append((('lattice', 'L1', 'S2', 'G1', 'D0', 0.0), 4, (16, 32),
                   seed, True))
     tasks.append((('mink',), 8, (16, 32), seed, True))
+    tasks.append((('scaled', 0.02, 'L2', 'S3', 'G2', 'D1', 0.0), 8, (16, 32),
+                  seed))
     return tasks
 
 
